@@ -16,6 +16,20 @@ NOTES = {
  't': "NOTE: another maintainer already did a first pass over these functions (renames of locals, simple early returns, if->switch, single error wraps). Choose DIFFERENT spots and prefer the structurally more interesting kinds: 4, 5, 6, 8, 9, 10, and combinations such as 'introduce a local and use it in two places', 'extract a helper that takes parameters and returns a value', 'merge two guards into one condition' or 'split one condition into two guards'.",
  'u': "NOTE: two maintainers already went over these functions (renames, early returns, if<->switch, loop spellings, single-use locals, small extracted helpers, deferred unlocks). Choose DIFFERENT spots and go for the less common but still everyday clean-ups: extract a helper that returns TWO OR MORE values (value, ok / value, err); turn a closure / function literal into a named method passed as a method value (or the reverse: inline a tiny helper at its only call site); hoist a repeated expression into a local declared with `var` and assigned in branches; replace a boolean flag by an early exit (or introduce one); replace `x := a; if c { x = b }` by an if/else; convert a `for {}` with break conditions into a `for cond {}` loop (or the reverse); use named results; replace `append` in a loop by preallocation + index assignment; swap the operands of a symmetric comparison (`a == b` -> `b == a`, `a < b` -> `b > a`); apply De Morgan to a condition.",
 }
+# variant 'v': the functions are named here (the ones whose rules were added or changed last)
+FOCUS = {
+ 'C03': [("Operator.processEventBatch", "workers/operator/operator.go"), ("KeyedStateStore.GetState / ApplyMutations", "workers/operator/keyed_state_store.go")],
+ 'C08': [("wal.Writer.Rotate, Cut, Truncate, Save", "dkv/wal/writer.go"), ("bufferSegment Read / Write", "dkv/wal/writer.go")],
+ 'C09': [("DB.NeedsTable", "dkv/db.go"), ("Operator.HandleNeedsTable", "workers/operator/operator.go"), ("OperatorConnectHandler.NeedsTable", "rpc/operator_connect_handler.go"), ("OperatorConnectClient.NeedsTable", "rpc/operator_connect_client.go"), ("neighborPartition.NeedsTable, OperatorPartition.ExclusivelyOwnsTable", "workers/operator/operator_partition.go")],
+ 'C10': [("KeyGroupPriorityQueue.Push, Pop, Peek, Delete, loadFromDB", "workers/operator/timer_store.go"), ("ds.SortedCache", "util/ds/sorted_cache.go")],
+ 'C11': [("NewTimerRegistry, TimerRegistry.AdvanceWatermark, SetTimer", "workers/operator/timer_registry.go"), ("Operator.handleSourceComplete, handleWatermark", "workers/operator/operator.go")],
+ 'C17': [("TableWriter.WriteRun", "dkv/sst/table_writer.go"), ("entryBuffer add / cut / all / flushChunk", "dkv/sst/table_writer.go")],
+ 'C18': [("Compactor.majorCompaction, minorCompaction", "dkv/sst/compaction.go")],
+ 'C20': [("EventBatcher.Add, Flush, IsFull", "batching/batching.go"), ("ReorderFetcher.flush, Add", "batching/reorder_fetcher.go"), ("ReorderBuffer", "batching/reorder_buffer.go")],
+}
+NOTES['v'] = NOTES['t'] + " Also welcome: turning a labelled break into a flag (or the reverse), named results with bare returns, inlining a two-line method at its only call site, extracting a helper that returns (value, error), passing a value through a pointer parameter, replacing a compound condition by nested ifs."
+if variant == 'v':
+    ml = "\n".join(f" - {n}  [{w}]" for n, w in FOCUS[prop])
 NOTE = NOTES[variant]
 print(f"""You are doing routine maintenance refactoring on a Go codebase. Work ONLY inside the git worktree {wt} (a checkout of the stream-processing engine reduction-dev/reduction; module reduction.dev/reduction). Do not read or write anything under /verif or /repo. The sandbox has no network. Do NOT use `git stash` (it is shared between worktrees).
 
